@@ -263,3 +263,12 @@ func VerifC14Initial(version protocol.Version, dcid, scid, token []byte, size in
 	sealer.EncryptHeader(b[pnOffset+4:pnOffset+4+16], &b[0], b[pnOffset:payloadOffset])
 	return b
 }
+
+// VerifC14RetryFields parses a Retry packet: its token and its source connection ID.
+func VerifC14RetryFields(b []byte) (token, scid []byte, ok bool) {
+	hdr, _, _, err := wire.ParsePacket(b)
+	if err != nil || hdr.Type != protocol.PacketTypeRetry {
+		return nil, nil, false
+	}
+	return hdr.Token, hdr.SrcConnectionID.Bytes(), true
+}
